@@ -238,3 +238,28 @@ PROPS["C10"] = {
         ],
     },
 }
+
+PROPS["C13"] = {
+    "pkg": "c13", "level": "exploration",
+    "technique": "property-based testing (rapid) of every OT layer driven directly (random, correlated, extended, additive OT, multiplication) with the defining relation of "
+                 "each layer as oracle (internal outputs read through reflection), boundary scalars and degenerate choice vectors, setup reuse, and single-field "
+                 "alterations of every OT message with the oracle 'error on the checking side or still the correct product'",
+    "level_text": "Layer relations are checked exactly for every batch entry: chosen pad, t_j = q_j xor c_j*Delta, VChoices[j] = V_{c_j}[j], additive shares summing to c_j*alpha_k, "
+                  "and share_S + share_R = alpha*beta computed with math/big. Alterations are value-level (another valid point/scalar, flipped bits) at one of 12 sites.",
+    "level_note": "Internal outputs (unexported fields) are read with reflect/unsafe; the product oracle is independent (math/big). Random search biased to boundaries.",
+    "rule": "case = (layer, choice-vector kind, batch size, setup uses, scalar classes, alteration site); non-trivial iff a scalar is on the boundary lattice, the choice vector is "
+            "degenerate, the setup is reused, the batch is not the default, or a message is altered; distinct = distinct class keys",
+    "assumptions": [],
+    "tiers": {
+        "quick": [
+            {"run": "^TestRandomOT$", "checks": 1500, "shards": 2},
+            {"run": "^TestLayers$", "checks": 480, "shards": 6},
+            {"run": "^TestMultiply$", "checks": 640, "shards": 8},
+        ],
+        "thorough": [
+            {"run": "^TestRandomOT$", "checks": 60000, "shards": 2},
+            {"run": "^TestLayers$", "checks": 24000, "shards": 6},
+            {"run": "^TestMultiply$", "checks": 32000, "shards": 8},
+        ],
+    },
+}
